@@ -344,12 +344,20 @@ class BaseFileLock(abc.ABC):
         Release the platform dependent lock and clear
         :attr:`_lock_file_fd`
         """
-        fd, self._lock_file_fd = self._lock_file_fd, None
+        # Until it is closed the descriptor stays known to the at-fork
+        # hook (as the pending one): a child forked by another thread
+        # meanwhile must not keep the still locked file open
+        fd = self._pending_fd = self._lock_file_fd
+        self._lock_file_fd = None
         assert isinstance(fd, int)
         try:
             self._unlock(fd)
         finally:
-            os.close(fd)
+            with _fork_lock:  # No fork between closing and forgetting it
+                try:
+                    os.close(fd)
+                finally:
+                    self._pending_fd = None
 
     @abc.abstractmethod
     def _lock(self, fd: int, block: bool = True) -> None:
